@@ -532,7 +532,7 @@ func (w *World) evalIndex(env *CEnv, e *CExpr) *Val {
 	if x.Typ != nil {
 		switch t := x.Typ.Underlying().(type) {
 		case *types.Slice:
-			key := w.elemsKey(w.sortOf(t.Elem()))
+			key := w.elemsKeyT(t.Elem())
 			env.noteRead(key, x.T)
 			return &Val{T: sel(sel(w.hget(env.state(), key), sarr(x.T)), add(soff(x.T), i.T)), Typ: t.Elem()}
 		case *types.Map:
@@ -813,7 +813,7 @@ func (w *World) evalCall(env *CEnv, e *CExpr) *Val {
 	case "backing":
 		x := ev(0)
 		et := x.Typ.Underlying().(*types.Slice).Elem()
-		key := w.elemsKey(w.sortOf(et))
+		key := w.elemsKeyT(et)
 		env.noteRead(key, x.T)
 		return &Val{T: sel(w.hget(env.state(), key), sarr(x.T))}
 	case "alloc":
